@@ -105,7 +105,7 @@ func (x *Exec) call(st *State, c *ssa.Call) bool {
 		fr.regs[c] = res
 		return true
 	}
-	if fc := x.prog.contractFor(callee); fc != nil && !fc.Inline && !fc.InlineAtCalls && !x.inlineHere(fc) {
+	if fc := x.prog.contractFor(callee); fc != nil && !fc.Inline && (!fc.InlineAtCalls || x.contractHere(fc)) && !x.inlineHere(fc) {
 		fr.regs[c] = x.applyContract(st, c, callee, fc, args)
 		return true
 	}
@@ -226,6 +226,18 @@ func (x *Exec) havocKeeps(callee *ssa.Function) []string {
 		return k
 	}
 	return x.fc.HavocKeeps["*"]
+}
+
+func (x *Exec) contractHere(callee *FuncContract) bool {
+	if x.fc == nil {
+		return false
+	}
+	for _, k := range x.fc.ContractCalls {
+		if k == callee.Key {
+			return true
+		}
+	}
+	return false
 }
 
 func (x *Exec) inlineHere(callee *FuncContract) bool {
